@@ -105,6 +105,12 @@ def lookup(callee, t):
 def _vecop(fn):
     def h(ip, st, t, a, rt):
         x, y = a
+        if fn is _div and nf.DIV_LOG is not None:
+            try:
+                for q in ([as_rf(deref(y))] if isinstance(deref(y), RF) else c3(y)):
+                    nf.log_div(q, getattr(st, 'guard', ()))
+            except (TypeError, KeyError, I.AnalysisIncomplete):
+                pass
         isv = lambda v: not isinstance(deref(v), RF)
         if isv(x) and isv(y):
             p, q = c3(x), c3(y)
@@ -221,6 +227,7 @@ def _dist(ip, st, t, a, rt):
 def _normalize(ip, st, t, a, rt):
     p = c3(a[0])
     l = nf.fn_sqrt(dot3(p, p))
+    nf.log_div(l, getattr(st, 'guard', ()))
     return V3(*[x / l for x in p])
 
 
@@ -427,6 +434,7 @@ def _fclamp(ip, st, t, a, rt):
 
 @reg('core::f64::<impl f64>::recip')
 def _recip(ip, st, t, a, rt):
+    nf.log_div(as_rf(a[0]), getattr(st, 'guard', ()))
     return RF.const(1) / as_rf(a[0])
 
 
@@ -962,6 +970,29 @@ def _iter_sum(ip, st, t, a, rt):
             return NotImplemented
         total = total + x
     return total
+
+
+# --- equality of field-less enums of the sign interface (`sign == Ordering::Greater`): derived PartialEq compares discriminants ------------
+_FIELDLESS = {'Less': -1, 'Equal': 0, 'Greater': 1, 'Minus': 0, 'NoSign': 1, 'Plus': 2}
+
+
+@regx(r'^<(std::cmp::Ordering|core::cmp::Ordering|num_bigint::Sign|num_bigint::bigint::Sign) as std::cmp::PartialEq>::(eq|ne)$')
+def _fieldless_eq(ip, st, t, a, rt):
+    def side(v):
+        v = deref(v)
+        if isinstance(v, I.St) and v.variant in _FIELDLESS and not v.fields:
+            return RF.const(_FIELDLESS[v.variant])
+        if isinstance(v, I.Sym):
+            ca = v.atom
+            if ca.kind == 'sym' and str(ca.name).startswith('const:') and '=' in str(ca.name):
+                return RF.const(int(str(ca.name).rsplit('=', 1)[1]))
+            return RF.atom(nf.app_atom('discr', ca))
+        return None
+    x, y = side(a[0]), side(a[1])
+    if x is None or y is None:
+        return NotImplemented
+    op = '==' if (t.get('callee') or '').endswith('::eq') else '!='
+    return I.b_cmp(op, x, y)
 
 
 # --- TypeId ---------------------------------------------------------------------------------
